@@ -965,7 +965,8 @@ let poll_fut s f x w =
     if negb s.s_alive
     then (s, ONA)
     else if N.eqb sent total
-         then ((kill s f x), (OReady (OBatch (BOk, total, []))))
+         then ((add_drops (kill s f x) rest), (OReady (OBatch (BOk, total,
+                []))))
          else if s.s_closed
               then ((add_drops (kill s f x) rest), (OReady (OBErr (sent,
                      rest))))
@@ -974,7 +975,8 @@ let poll_fut s f x w =
                       let (p0, rest') = p in
                       let (s', k) = p0 in
                       if N.eqb (N.add sent k) total
-                      then ((kill s' f x), (OReady (OBatch (BOk, total, []))))
+                      then ((add_drops (kill s' f x) rest'), (OReady (OBatch
+                             (BOk, total, []))))
                       else ((pend (reg_producer f w s') f (FSendB (rest',
                               (N.add sent k), total)) w), OPending)
                     | None ->
